@@ -21,6 +21,16 @@ _WIP = "check not built yet in this session (design in DESIGN.md section 6); not
 NOT_APPLICABLE = {("C%02d" % i): _WIP for i in range(1, 21)}
 
 PROPS = {
+    "C13": {
+        "engine": "c13", "monitors": ["mon"],
+        "finding_checks": {"monorphan": "deferred-group-delivered-for-discarded-object", "monorder": "nested-deferred-group-before-its-parent"},
+        "engine_timeout": {"quick": 900, "thorough": 7200},
+        "technique": "Coq model of deferred delivery (split of the outcome tree into initial payload and groups, client merge in arrival order, content function) with proofs of the content and sequence theorems + differential correspondence of every payload sequence of generated probe servers",
+        "level_text": "Executable model: which fields go to which group (object.gotpl), placeholder nulls, group nulling, nested groups started by their parent's execution, and the client's merge in arrival order; the content the deferral must preserve is a structural function of the outcome tree. Every check runs pinned and random deferred operations with failures inside and outside groups and delay-induced completion orders on probe servers generated from the current templates, and requires: the payload multiset is the model's, each started group delivered once with its object's path and label, merged payloads equal the content, errors are plain errors, hasNext true on all but the last. Theorems: see Properties/C13.v (content unchanged when no deferred non-null field fails; hasNext pattern over all runs of the response-function LTS; kept findings refuted by witnesses). Partial: the merge theorem is proved for the canonical parent-first order only.",
+        "level_note": "Trusted: Coq kernel + vm_compute; harness; the client merge rule (each payload's object merged key by key at its path, in arrival order) is this development's reading of the incremental-delivery convention.",
+        "trusted": ["the merge rule a client applies is modelled as: object at path, keys overwritten/added, a null group payload delivers nothing"],
+        "assumptions": ["subscriptions and mutations with @defer are outside this check"],
+    },
     "C05": {
         "engine": "c05", "monitors": ["mon"],
         "engine_timeout": {"quick": 900, "thorough": 7200},
